@@ -176,6 +176,13 @@ fn alphabet(dist: bool) -> Vec<Item> {
                 v.push(Item { name: aname, frames: af });
             }
         }
+        // a fragment header whose atom-cache section fills the frame (no data bytes in this fragment): legal, nothing surfaces
+        {
+            let mut h = vec![131u8, 69]; h.extend_from_slice(&31u64.to_be_bytes()); h.extend_from_slice(&2u64.to_be_bytes()); h.push(3); h.extend_from_slice(&[131, 68, 0]);
+            v.push(Item { name: "kfrag_header_cache_section_and_no_data", frames: vec![(frame(&h, 4), Exp::FragPart)] });
+            let mut h0 = vec![131u8, 69]; h0.extend_from_slice(&32u64.to_be_bytes()); h0.extend_from_slice(&2u64.to_be_bytes()); h0.push(0);
+            v.push(Item { name: "kfrag_header_no_cache_section_and_no_data", frames: vec![(frame(&h0, 4), Exp::FragPart)] });
+        }
         // malformed fragment frames
         let mut short_hdr = vec![131u8, 69]; short_hdr.extend_from_slice(&5u64.to_be_bytes()); short_hdr.extend_from_slice(&2u64.to_be_bytes()); short_hdr.push(200);
         v.push(Item { name: "frag_header_count_beyond_frame", frames: vec![(frame(&short_hdr, 4), Exp::OneErr)] });
@@ -411,7 +418,7 @@ pub fn run(rep: &Report) -> Value { run_filtered(rep, None) }
 pub fn run_c02(rep: &Report) -> Value { run_filtered(rep, Some("MALFORMED")) }
 
 /// C09 at the connection: only the fragment arrival-order cases (receive_message; the read-half entry point is pass-through only).
-pub fn run_c09(rep: &Report) -> Value { run_filtered(rep, Some("kfragperm_")) }
+pub fn run_c09(rep: &Report) -> Value { run_filtered(rep, Some("kfrag")) }
 
 fn run_filtered(rep: &Report, only: Option<&str>) -> Value {
     let thorough = rep.thorough();
